@@ -52,4 +52,22 @@ PROPS = {
              level_note="Trusted: Lean kernel; Go regexp (RE2) for the one pinned literal and strconv.Atoi saturation are modelled, not "
                         "verified; harness.",
              technique="Lean 4 proof (induction over the marker list, omega) + differential correspondence on the real function"),
+    "C10": P("Pw.Props.C10",
+             ["Pw.Props.C10.C10_default", "Pw.Props.C10.C10_verdict", "Pw.Props.C10.C10_accept", "Pw.Props.C10.C10_skip",
+              "Pw.Props.C10.C10_skip_partial", "Pw.Props.C10.C10_submin", "Pw.Props.C10.C10_error_class",
+              "Pw.Props.C10.C10_session_step", "Pw.Props.C10.C10_startup", "Pw.Props.C10.slurpChunks_le",
+              "Pw.Props.C10.slurpChunks_sum"],
+             [("limit", 4000, 160000), ("limitbig", 0, 12)], ["Reader", "Consts"],
+             design_ref="§7 C10",
+             level_text="Lean theorems for EVERY limit L and every 32-bit declared length: a body of at most L bytes is read exactly "
+                        "(C10_accept), a larger one is never delivered, its declared body is consumed in full and the stream resumes at "
+                        "the following message (C10_skip), a partially arrived one keeps skipping (C10_skip_partial), declared lengths "
+                        "< 4 are rejected without reading anything and without negative sizes (C10_submin); the session answers with one "
+                        "ErrorResponse 54000/ERROR (+ReadyForQuery only for a simple Query) and goes on with the next item "
+                        "(C10_session_step); during startup the connection ends silently (C10_startup); Slurp's chunks are <= L and sum "
+                        "to the declared size. Tie: pinned guard `size > reader.MaxMessageSize || size < 0`, ReadMsgSize/reset/Slurp "
+                        "facts; differential + expectation oracle over limits {16..8192} x lengths {L-1,L,L+1,L+2,2L,2L+1,3L+7, 0..3} x "
+                        "15 type bytes x positions, injected protocol frames inside skipped bodies, thorough: the 16 MiB default boundary.",
+             level_note="Trusted: Lean kernel; bufio/io.ReadFull semantics (flat-stream reading, see C03); harness.",
+             technique="Lean 4 proof (arithmetic on the length guard, omega) + differential correspondence with expectation oracle"),
 }
